@@ -253,6 +253,7 @@ Qed.
 Theorem load_dump_installs : forall (e : env) (clear : bool) (s : S) (sn : snapshot),
   stored (sr (nd s)) = Some (Good sn) ->
   s_ver sn <= self_ver (nd s) ->
+  (clear = true -> applied (nd s) < eidx (s_e1 sn)) ->
   let s' := load_dump e clear s in
   hist (nd s') = s_hist sn /\ enabled_ver (nd s') = s_ver sn /\ applied (nd s') = eidx (s_e1 sn) /\
   self_ver (nd s') = self_ver (nd s) /\ commit (nd s') = commit (nd s) /\
@@ -262,7 +263,10 @@ Theorem load_dump_installs : forall (e : env) (clear : bool) (s : S) (sn : snaps
    exists a b r, log (nd s') = a :: b :: r /\ entry_eqb a (s_e0 sn) = true /\ entry_eqb b (s_e1 sn) = true /\
                  exists pre, log (nd s) = pre ++ a :: b :: r).
 Proof.
-  intros e clear s sn ST V. cbn zeta. unfold load_dump. rewrite ST.
+  intros e clear s sn ST V AH. cbn zeta. unfold load_dump. rewrite ST.
+  assert (HB : clear && (eidx (s_e1 sn) <=? applied (nd s)) = false).
+  { destruct clear; [|reflexivity]. specialize (AH eq_refl). cbn. apply N.leb_gt. exact AH. }
+  rewrite HB.
   destruct (self_ver (nd s) <? s_ver sn) eqn:E; [lia|].
   set (s1 := upd (fun n => n <| hist := s_hist sn |> <| enabled_ver := s_ver sn |>) s).
   set (s2 := if clear then s1 else _).
